@@ -4,7 +4,7 @@
     the per-run translator obligations and the correspondence), about the Thomas solver, and about the drivers. *)
 From Coq Require Import Reals List Lra Lia.
 From Dadi Require Import Base.Num Base.NumR Model.Tridiag Model.Scheme Model.NDSweep
-  Proofs.TridiagProofs Proofs.SchemeProofs Proofs.Drivers Proofs.NDLines Proofs.NDSweepProofs Proofs.Pivots.
+  Proofs.TridiagProofs Proofs.SchemeProofs Proofs.Drivers Proofs.NDLines Proofs.NDSweepProofs Proofs.Pivots Proofs.PivotsDominant.
 Import ListNotations.
 Local Open Scope R_scope.
 
@@ -78,6 +78,21 @@ Theorem C02_pivots_positive_under_peclet_condition : forall xs Vf Mf nu c0 c1 dt
   forall phi, allpos (all_pivots (line_rows xs Vf Mf nu c0 c1 dt use_delj phi)).
 Proof. exact line_pivots_positive. Qed.
 Print Assumptions C02_pivots_positive_under_peclet_condition.
+
+(** ... and for EVERY parameter set (any advection, dominance, migration, either delj setting, any grid): only the diagonal
+    carries 1/dt, so the rows are strictly diagonally dominant, hence no Thomas pivot vanishes, as soon as 1/dt exceeds the
+    dt-free load |a_i| + |c_i| + |b_i - 1/dt| of every row - in particular for every 0 < dt < 1/(1 + sum of the loads) *)
+Theorem C02_pivots_nonzero_for_small_time_steps : forall xs Vf Mf nu c0 c1 use_delj, (2 <= length xs)%nat ->
+  forall dt phi, 0 < dt -> (forall i, (i < length xs)%nat -> row_load xs Vf Mf nu c0 c1 use_delj i < 1 / dt) ->
+  nonzero (all_pivots (line_rows xs Vf Mf nu c0 c1 dt use_delj phi)).
+Proof. exact line_pivots_nonzero_small_dt. Qed.
+Theorem C02_pivots_nonzero_below_explicit_dt0 : forall xs Vf Mf nu c0 c1 use_delj, (2 <= length xs)%nat ->
+  forall dt phi, 0 < dt -> dt < 1 / (1 + load_sum xs Vf Mf nu c0 c1 use_delj) ->
+  nonzero (all_pivots (line_rows xs Vf Mf nu c0 c1 dt use_delj phi)).
+Proof. exact line_pivots_nonzero_below_dt0. Qed.
+Theorem C02_diagonally_dominant_systems_have_nonzero_pivots : forall rows, rowdom rows -> nonzero (all_pivots rows).
+Proof. exact all_pivots_dominant. Qed.
+Print Assumptions C02_pivots_nonzero_below_explicit_dt0.
 
 (** absorbing terms exist only on the all-zero / all-one corner lines *)
 Lemma bcterm_off_corner xs Mf nu i : bcterm xs Mf nu false false i = 0.
